@@ -224,7 +224,7 @@ CHECKS = {
         level="other",
         explanation="witness catalogue: compiler verdict per witness, Miri verdict for every witness that compiles; sanitizer lanes: hostile and valid inputs through the unsafe decode paths with full traversal of results; evidence lists the verdict table and per-lane executions",
         quick=[("dbg", 1.0), ("asan", 1.0)],
-        thorough=[("dbg", 1.0), ("asan", 1.0), ("msan", 0.3), ("memcheck", 0.1), ("miri", 0.02, {"shards": 16})],
+        thorough=[("dbg", 1.0), ("asan", 1.0), ("msan", 0.3), ("memcheck", 0.1), ("miri", 0.005, {"shards": 16})],
         custom="c19_witnesses",
         rule="part 1: one case per witness; part 2: (type, input) pairs through the unsafe decode paths, plus tampered encodings read by lenient client codecs (a nested decode fails, the client carries on) from allocations of exactly the input length, distinct by (type, input)",
         floors={"any": {"witnesses_rejected_by_the_compiler": 7, "negative_controls_clean": 2, "no_ub_witnesses_clean": 2, "types_with_unsafe_decode_paths": 50, "tolerant:nested_failure_survived": 1000}},
